@@ -65,7 +65,9 @@ func getSchemaDiffNode(name string, schema interface{}) *Node {
 		case spec.Refable:
 			node.TypeName, node.IsArray = getSchemaType(s)
 		case *spec.Schema:
-			node.TypeName, node.IsArray = getSchemaType(s.SchemaProps)
+			if s != nil {
+				node.TypeName, node.IsArray = getSchemaType(s.SchemaProps)
+			}
 		case spec.SimpleSchema:
 			node.TypeName, node.IsArray = getSchemaType(s)
 		case *spec.SimpleSchema:
